@@ -81,7 +81,7 @@ class World:
         F = cinco.fields
         s = cinco.Schema()
         s.l = F.ListField(F.IntField(min=0), default=lambda: [])
-        s.m = F.ListField(F.StringField(transform_strip=True), default=lambda: [])
+        s.m = F.ListField(F.IntField(), default=lambda: [])
         s.d = F.DictField(F.StringField(transform_case="upper"), F.IntField(min=0), default=lambda: {})
         self.schema = s
         self.cfg = s()
